@@ -1,4 +1,4 @@
-//@unit U1 props=C08,C13,C16,C06 pending-ack range list of RenetClient (renet/src/remote_connection.rs)
+//@unit U1 props=C01,C02,C08,C13,C16,C06 pending-ack range list of RenetClient (renet/src/remote_connection.rs)
 #![feature(allocator_api)]
 #![allow(unused_imports, dead_code, unused_variables, unused_mut)]
 use vstd::prelude::*;
